@@ -173,7 +173,7 @@ func buildAlphabet(r *hx.Run) *alphabet {
 		return pki.CRL(a.issuer, n, tThis, next, serials(n), 0)
 	}
 	delta := func(n int64, next time.Time) *x509.RevocationList { // proper delta of base n
-		return pki.CRL(a.issuer, n+1, tThis, next, serials(n + 1), n)
+		return pki.CRL(a.issuer, n+1, tThis, next, serials(n+1), n)
 	}
 	noNext, err := stripNextUpdate(base(60, tFresh), key, a.issuer.Cert)
 	if err != nil {
